@@ -37,11 +37,13 @@ func modelsC04(tier string) ([]*PktModel, []int) {
 	}
 	depth := []int{9, 8}
 	if tier == "thorough" {
-		models = []*PktModel{
-			nft3("nft3-honest", props, NftScenario{MaxUserTx: 5, Receivers: []int{1, 2}, BadReceiver: true, Relays: true, Burns: true}, ""),
-			nft3("nft3-adversarial-class", props, NftScenario{MaxUserTx: 5, Receivers: []int{1}, Relays: true, AdvClasses: adv, AdvChains: []string{B, C}, MaxAdv: 2, MintInto: true}, ""),
-		}
-		depth = []int{12, 11}
+		// the quick scenarios explored deeper, then the same two with a wider alphabet (second receiver, relay routes,
+		// burns, adversarial classes on two chains)
+		models = append(models,
+			nft3("nft3-honest-wide", props, NftScenario{MaxUserTx: 5, Receivers: []int{1, 2}, BadReceiver: true, Relays: true, Burns: true}, ""),
+			nft3("nft3-adversarial-class-wide", props, NftScenario{MaxUserTx: 5, Receivers: []int{1}, Relays: true, AdvClasses: adv, AdvChains: []string{B, C}, MaxAdv: 2, MintInto: true}, ""),
+		)
+		depth = []int{14, 12, 10, 8}
 	}
 	return models, depth
 }
@@ -49,7 +51,7 @@ func modelsC04(tier string) ([]*PktModel, []int) {
 func CheckC04(tier string) int {
 	models, depth := modelsC04(tier)
 
-	return RunPkt("C04", tier, models, depth, tierBudget(tier, 100*time.Second, 15*time.Minute), append([]string{
+	return RunPkt("C04", tier, models, depth, tierBudget(tier, 100*time.Second, 25*time.Minute), append([]string{
 		"token identities are assigned by history (mint -> identity; send -> the packet carries the identity of what was locked or burned; delivery -> what the receiver newly owns inherits the packet's identity), never by parsing class paths",
 		"invariant in every state: each native identity has exactly one live holder (a user-held instance on some chain or a packet in flight); a delivery or refund that takes an instance out of escrow must carry that instance's own identity",
 		"user alphabet: MsgNftTransfer of every user-held instance to every other chain (optionally via the third chain, optionally to an invalid receiver), MsgIssueDenom+MsgMintNFT of adversarial native classes accepted by the NFT module, MsgBurnNFT (thorough); bounded number of user transactions",
